@@ -35,7 +35,7 @@ const PropertyInfo kInfo = {
     "interpolation over the reference field); t distinct shares -> secret; fewer than t, or exactly t with a repeated index -> std::invalid_argument; "
     "repeat inside the first t with surplus shares present, repeat beyond the first t, or surplus of distinct shares -> invalid_argument or the true secret. "
     "With stream coefficients the first t-1 shares must not reproduce the secret (>= 12 of 32 bytes). Once per process (exhaustive): all field axioms over Shamir.cpp's gf_add/gf_mul/gf_div; for t=2 and t=3 every coefficient choice is enumerated "
-    "through the random_device queue and the map coefficients -> t-1 share values must be a bijection. "
+    "through the random_device queue and the map coefficients -> t-1 share values must be a bijection; independently of how draws are consumed, sampled splits (64 expected hits per combination) must hit every combination of t-1 share values. "
     "Non-trivial: n >= 200, or t = n, or a malformed set was submitted. Distinct = hash of the decoded case."};
 
 namespace {
@@ -529,6 +529,36 @@ std::string enumerate_no_information(Ctx& c, unsigned t, unsigned n, const std::
     return "t=" + std::to_string(t) + ", n=" + std::to_string(n) + ": all " + std::to_string(inputs) + " coefficient choices x " + std::to_string(secret_values.size()) + " secret byte values x every " +
            (t == 2 ? "share index" : "pair of share indices") + " give pairwise distinct share values (bijection); ";
 }
+// Sampling counterpart of the enumeration, independent of how split() consumes its random draws (rejection sampling,
+// wider draws, redraws ...): for a fixed secret byte the t-1 share values must be uniform over all 256^(t-1) combinations.
+// The interposed random_device is a deterministic uniform stream, so the outcome is a pure function of the code.  Only an
+// EMPTY bin is judged: with >= 64 expected hits per bin an empty bin has probability < e^-64 under uniformity.
+std::string sample_no_information(Ctx& c, unsigned t, unsigned n, unsigned secret_value, std::uint64_t& splits) {
+    vclock::rng_clear_queue();
+    vclock::rng_seed(0xC10A + t * 131 + secret_value);
+    const std::size_t bins = t == 2 ? 256u : 65536u;
+    const std::size_t nsplits = bins * 64 / 32;   // 32 byte positions per split, 64 expected hits per bin
+    Secret secret;
+    secret.fill(static_cast<std::uint8_t>(secret_value));
+    std::vector<std::uint32_t> hist(bins, 0);
+    for (std::size_t k = 0; k < nsplits; ++k) {
+        auto shares = Shamir::split(secret, static_cast<std::uint8_t>(t), static_cast<std::uint8_t>(n));
+        ++splits;
+        if (shares.size() != n) return "sampling for t=" + std::to_string(t) + " not applicable (share count varies); ";
+        for (unsigned b = 0; b < 32; ++b) hist[t == 2 ? shares[0].value[b] : ((shares[0].value[b] << 8) | shares[1].value[b])]++;
+    }
+    for (std::size_t v = 0; v < bins; ++v) {
+        if (hist[v] == 0) {
+            char buf[300];
+            if (t == 2) std::snprintf(buf, sizeof buf, "threshold 2, secret byte 0x%02x: over %zu splits the first share never takes the value 0x%02zx (64 expected)", secret_value, nsplits, v);
+            else std::snprintf(buf, sizeof buf, "threshold 3, secret byte 0x%02x: over %zu splits the first two shares never take the values (0x%02zx,0x%02zx) (64 expected)", secret_value, nsplits, v >> 8, v & 0xFF);
+            c.note("share-value sampling t=%u n=%u secret_byte=0x%02x", t, n, secret_value);
+            c.fail("C10:share-values-not-uniform", std::string(buf) + ": t-1 shares exclude some secrets, so fewer than t shares carry information about the secret");
+        }
+    }
+    return "t=" + std::to_string(t) + ": " + std::to_string(nsplits * 32) + " sampled share " + (t == 2 ? "values" : "value pairs") + " for secret byte " + std::to_string(secret_value) + " hit every one of the " +
+           std::to_string(bins) + " combinations; ";
+}
 }  // namespace
 
 // ------------------------------------------------------------------------------------------------------
@@ -861,7 +891,11 @@ std::string run_once(Ctx& c) {
     lap("enumeration t=2 n=max");
     note += enumerate_no_information(c, 3, 6, few, splits);
     lap("enumeration t=3");
-    note += std::to_string(splits) + " enumerated splits";
+    note += sample_no_information(c, 2, 3, 0x00, splits);
+    note += sample_no_information(c, 2, 5, 0xA7, splits);
+    note += sample_no_information(c, 3, 4, 0x5C, splits);
+    lap("sampling");
+    note += std::to_string(splits) + " enumerated / sampled splits";
     vclock::rng_clear_queue();
     return note;
 }
